@@ -196,3 +196,10 @@ Example C07_nonvacuous :
                  (s "c", VObj [(s "d", VDate 1999 12 31)])] in
   ejson_ok real_keys v = true /\ rt_model v = v.
 Proof. vm_compute. split; reflexivity. Qed.
+
+(* the read-back theorem on a value whose keys are not in order: the sorting matters (the value comes back re-ordered) and
+   the model's round trip with sorting gives exactly vsort *)
+Example C07_sorted_roundtrip_nonvacuous :
+  let v := VObj [(s "b", VInt 1); (s "a", VObj [(s "z", VDec 150 (-2)); (s "c", VDate 1999 12 31)])] in
+  ejson_ok real_keys v = true /\ rt_sorted v = vsort v /\ vsort v <> v.
+Proof. vm_compute. split; [reflexivity | split; [reflexivity | discriminate]]. Qed.
